@@ -393,6 +393,18 @@ pub fn check(prop: &dyn Property, tier: Tier, base_seed: u64, jobs: usize, runs_
     CheckOutcome { exit }
 }
 
+/// `simk shrink <ID> <plan file> <class> <key> <out>`: minimise a failing plan by hand.
+pub fn shrink_file(prop: &dyn Property, path: &str, class: &str, key: &str, out: &str) {
+    let s = std::fs::read_to_string(path).expect("read plan");
+    let v: Value = serde_json::from_str(&s).expect("plan json");
+    let plan = v.get("plan").cloned().unwrap_or(v);
+    let (min_plan, steps) = minimise(prop, plan, class, key, Duration::from_secs(180));
+    let rep = prop.run_plan(&min_plan);
+    let file = json!({"property": prop.id(), "seed": rep.seed, "plan": min_plan, "expect": {"class": class, "key": key, "trace_hash": format!("{:016x}", rep.trace_hash)}, "detail": rep.violations.iter().find(|x| x.class == class && x.key == key).map(|x| x.detail.clone()), "shrink_steps": steps});
+    std::fs::write(out, serde_json::to_vec_pretty(&file).unwrap()).expect("write");
+    println!("shrunk in {steps} steps -> {out}");
+}
+
 /// `simk replay <file>`: re-run a replay file; exit 1 + VIOLATION if it reproduces (class, key and trace hash).
 pub fn replay(prop: &dyn Property, path: &str) -> i32 {
     let s = std::fs::read_to_string(path).expect("read replay");
